@@ -305,6 +305,7 @@ class SubS(StandIn):
         self.name, self.answer, self.area = name, answer, area
         self.asked = []
         self.jordans = (CurveS(area),)
+        self.jordans[0].owner = self
 
     def _ask(self, *a, **k):
         self.asked.append((a, tuple(sorted(k.items()))))
@@ -383,9 +384,18 @@ def r02_3b(ctx):
                         else:
                             S.__dict__["subshapes"] = tuple(subs[i] for i in perm)
                         S.__dict__["jordans"] = tuple(x.jordans[0] for x in S.__dict__["subshapes"])
+                        def winding(a):
+                            """the winding number of a member's boundary curve about the (interior) query point, as the
+                            member's own answer implies it: 1 / 0 inside / outside a counter-clockwise curve, 0 / -1
+                            outside / inside a clockwise one"""
+                            own = getattr(a[0], "owner", None) if a else None
+                            if own is None:
+                                return NotImplemented
+                            return (1 if own.answer else 0) if own.area > 0 else (0 if own.answer else -1)
                         got = Runner(ctx, set(), lambda rn, ev, c, n, r, a, k: (
                             (FullBox() if agg(answers) and bounded else AdvBox()) if n == "box" and r is S else
-                            sum(areas) if n == "float" and a and a[0] is S else NotImplemented)).call_fn(fn, [S, arg, flag])
+                            sum(areas) if n == "float" and a and a[0] is S else
+                            winding(a) if n == "winding_number" and arg == "P" else NotImplemented)).call_fn(fn, [S, arg, flag])
                     except (Undecided, Raised) as ex:
                         undecided = str(getattr(ex, "what", ex))
                         break
